@@ -23,7 +23,7 @@ REQUIRED_COUNTERS = ["ref.optimal", "ref.infeasible", "ref.unbounded", "agree.op
                      "agree.unbounded", "check.feasibility", "check.objective", "check.multiplier.length",
                      "check.multiplier.sign", "check.lagrangian", "check.certificate.primal", "check.certificate.dual",
                      "check.none-rules", "format.sparse", "solver.glpk", "class.matrixform", "class.lp", "class.pwl",
-                     "con.equality", "con.vector-pwl", "con.constant-only", "obj.pwl"]
+                     "con.equality", "con.vector-pwl", "con.constant-only", "obj.pwl", "matrixform.scalar-rhs"]
 
 
 def plan(tier):
@@ -167,7 +167,7 @@ def run(ctx):
         g = S.TreeGen(rng, [x], p_sparse=0.5)
         X = S.n_var(x)
         cons = []
-        shape = rng.choice(["matrix", "matrix", "scalar", "plain"])
+        shape = rng.choice(["matrix", "matrix", "scalar", "plain", "matrix-scalar-rhs"])
         x0 = np.array([round(rng.uniform(-3, 3), 2) for _ in range(n)])
 
         def mk(lhs, rhs, rel, tag):
@@ -180,6 +180,24 @@ def run(ctx):
             Gk = S.K("spmat" if rng.random() < 0.5 else "mat", G)
             mk(S.n_mmul(Gk, X), kcol(np.round(h, 6)), "<=", "box")
             cvec = np.array([g.val(nz=True) for _ in range(n)])
+        elif shape == "matrix-scalar-rhs":
+            # a full (square, or stacked [A; -A]) coefficient matrix next to a SCALAR right-hand side: the coefficient is
+            # already in matrix form, the constant still has to be expanded
+            for _ in range(20):
+                A = np.array([[g.val() for _ in range(n)] for _ in range(n)]).reshape(n, n)
+                if abs(np.linalg.det(A)) > 0.2:
+                    break
+            else:
+                A = np.eye(n)
+            square = rng.random() < 0.6
+            G = A if square else np.vstack([A, -A])
+            Gk = S.K("spmat" if rng.random() < 0.4 else "mat", G)
+            mk(S.n_mmul(Gk, X), S.K("float", R), "<=", "halfbox" if square else "box")
+            zz = np.array([round(rng.uniform(0.5, 2), 1) for _ in range(n)])
+            cvec = -(A.T @ zz)           # bounded: c = -A'z with z > 0
+            cvec = np.where(np.abs(cvec) < 1e-9, 0.0, cvec)
+            x0 = np.zeros(n)
+            ctx.count("matrixform.scalar-rhs")
         elif shape == "scalar":
             a = g.kscalar(nz=True)
             mk(S.n_smul(a, X), S.K("float", R * abs(a.s)) if rng.random() < 0.5 else kcol([R * abs(a.s)] * n), "<=", "halfbox")
